@@ -50,18 +50,82 @@ def masked_vc(N, T, F, batch_first):
 
 
 
+def window_pair_prover(I, N, F, LIN, lin_step, facts_at, sk0, sk1):
+    """the reasoning shared by pad_variable and chunk_by_slices: a masked_select through a WINDOW mask (entry (n, t, f) masked iff
+    lo(n) <= t < hi(n)) scattered through another window mask of the same width per sequence moves entry (n, t - shift(n) + lo_src(n), f)
+    of the source to (n, t, f). Returns prove(tag, rec_src, rec_dst, (lo, hi) source, (lo, hi) destination, shift) which emits the
+    obligations (windows checked against the code's masks; inductions over coefficients, frames, sequences) and registers the
+    instances at the postcondition's skolem position sk0. sk1 = skolem position of the lemmas; facts_at(n) = the precondition at n."""
+    N0, T0, F0 = sk0
+    N1, T1, F1 = sk1
+    a_, b_, c_ = z3.Ints("a_q b_q c_q")
+    clamp = lambda v, lo, hi: z3.If(v < lo, lo, z3.If(v > hi, hi, v))
+
+    def window_lemmas(tag, rec, lo, hi):
+        ext = rec["dims"][1]
+        for mx in I.ex.ghost.get("maxes", []):
+            for y in (mx["ub"](N1), mx["ub"](N0)):
+                I.ex.instance(y)
+        I.ex.oblige("compaction.%s.extents" % tag, z3.And(rec["dims"][0] == N, rec["dims"][2] == F))
+        I.ex.oblige("compaction.%s.window_inside_the_extent" % tag, z3.Implies(z3.And(0 <= N1, N1 < N), z3.And(0 <= lo(N1), lo(N1) <= hi(N1), hi(N1) <= ext)))
+        row = lambda n, t: z3.And(t >= lo(n), t < hi(n))
+        mm = lambda n, t, f: z3.Implies(z3.And(0 <= n, n < N, 0 <= t, t < ext, 0 <= f, f < F), rec["mask"]([n, t, f]) == row(n, t))
+        I.ex.oblige("compaction.%s.mask_is_the_window" % tag, mm(N1, T1, F1))
+        I.ex.assume(z3.ForAll([a_, b_, c_], mm(a_, b_, c_)))
+        cf, ct_ = rec["CNT"][2], rec["CNT"][1]
+        lem = lambda n, t, f: z3.Implies(z3.And(0 <= n, n < N, 0 <= t, t < ext, 0 <= f, f <= F), cf(n, t, f) == z3.If(row(n, t), f, 0))
+        for y in (rec["base"](2, [N1, T1]), rec["step"](2, [N1, T1], F1), mm(N1, T1, F1)):
+            I.ex.instance(y)
+        I.ex.oblige("compaction.%s.coefficients.base" % tag, lem(N1, T1, z3.IntVal(0)))
+        I.ex.oblige("compaction.%s.coefficients.step" % tag, z3.Implies(z3.And(0 <= F1, F1 < F, lem(N1, T1, F1)), lem(N1, T1, F1 + 1)))
+        I.ex.assume(z3.ForAll([a_, b_, c_], lem(a_, b_, c_)))
+        cl = lambda n, t: z3.Implies(z3.And(0 <= n, n < N, 0 <= t, t <= ext), ct_(n, t) == LIN(clamp(t - lo(n), 0, hi(n) - lo(n))))
+        for y in (rec["base"](1, [N1]), rec["step"](1, [N1], T1), lem(N1, T1, F), lin_step(clamp(T1 - lo(N1), 0, hi(N1) - lo(N1))), facts_at(N1)):
+            I.ex.instance(y)
+        I.ex.oblige("compaction.%s.frames.base" % tag, cl(N1, z3.IntVal(0)))
+        I.ex.oblige("compaction.%s.frames.step" % tag, z3.Implies(z3.And(0 <= T1, T1 < ext, cl(N1, T1)), cl(N1, T1 + 1)))
+        I.ex.assume(z3.ForAll([a_, b_], cl(a_, b_)))
+        rec.update(lem_f=lem, lem_t=cl, mm=mm)
+        return cl
+
+    def prove(tag, rec1, rec2, src_win, dst_win, shift):
+        (slo, shi), (dlo, dhi) = src_win, dst_win
+        cl1 = window_lemmas(tag + ".source", rec1, slo, shi)
+        cl2 = window_lemmas(tag + ".destination", rec2, dlo, dhi)
+        c1, c2 = rec1["CNT"], rec2["CNT"]
+        I.ex.oblige("compaction.%s.windows_have_one_width" % tag, z3.Implies(z3.And(0 <= N1, N1 < N), shi(N1) - slo(N1) == dhi(N1) - dlo(N1)))
+        same = lambda n: z3.Implies(z3.And(0 <= n, n <= N), c1[0](n) == c2[0](n))
+        for y in (rec1["base"](0, []), rec2["base"](0, []), rec1["step"](0, [], N1), rec2["step"](0, [], N1), cl1(N1, rec1["dims"][1]), cl2(N1, rec2["dims"][1]), facts_at(N1)):
+            I.ex.instance(y)
+        I.ex.oblige("compaction.%s.sequences.base" % tag, same(z3.IntVal(0)))
+        I.ex.oblige("compaction.%s.sequences.step" % tag, z3.Implies(z3.And(0 <= N1, N1 < N, same(N1)), same(N1 + 1)))
+        I.ex.assume(z3.ForAll([a_], same(a_)))
+        I.ex.instance(same(N))
+        src_pos = [N0, T0 - shift(N0) + slo(N0), F0]
+        for y in (same(N0), cl1(N0, src_pos[1]), cl2(N0, T0), rec1["lem_f"](N0, src_pos[1], F0), rec2["lem_f"](N0, T0, F0), rec1["inj"](src_pos), rec1["mm"](*src_pos), rec2["mm"](N0, T0, F0), facts_at(N0)):
+            I.ex.instance(y)
+
+    return prove
+
+
 def pad_p_vc(mode="constant"):
-    """P rung: pad_variable for SYMBOLIC batch size N, sequence extent T, feature size F, lengths and pad amounts.
+    """P rung: pad_variable for SYMBOLIC batch size N, sequence extent T, feature size F, lengths and pad amounts, per mode.
     masked_select / masked_scatter have the assumed row-major compaction contract of vf/pyvc/symtensor.py (one counter per dimension,
-    defined by recurrences; the k-th selected entry is the entry with k masked entries before it). The sidecar proves, each by an
-    explicit induction (base / step obligations, instances from the contract's own builders):
-      (f) inside one frame the number of masked coefficients below f is f (masks do not depend on the coefficient);
-      (t) inside one sequence the number of masked entries before frame t is F * min(t, len) for the source mask and
-          F * clamp(t - left, 0, len) for the destination mask  (i * F is the function lin_F with lin_F(i + 1) = lin_F(i) + F);
-      (n) the number of masked entries in the sequences before n is the same for both masks;
-    hence rank_source(n, t - left[n], f) = rank_destination(n, t, f) and the destination receives exactly the source's entry.
-    Postcondition at a skolem (n0, t0, f0): out[n0, t0, f0] = x[n0, t0 - left, f0] if left <= t0 < left + len else `value`; the
-    output extent is max_n (len + left + right)."""
+    defined by recurrences; the k-th selected entry is the entry with k masked entries before it). Every mask the function builds is
+    a WINDOW mask - entry (n, t, f) is masked iff lo(n) <= t < hi(n) - and every masked_scatter pairs a destination window with a
+    source window of the same width per sequence:
+        the sequence itself:  source [0, len) of x             -> destination [left, left + len)
+        left padding:         source [0, left) of the buffer   -> destination [0, left)                 (reflect / replicate)
+        right padding:        source [0, right) of the buffer  -> destination [left + len, left + len + right)
+    For each pair the sidecar proves, each by an explicit induction (base / step obligations, instances from the contract's builders):
+      (f) inside one frame the number of masked coefficients below f is f (window masks do not depend on the coefficient);
+      (t) inside one sequence the number of masked entries before frame t is F * clamp(t - lo, 0, hi - lo)
+          (i * F is the function lin_F with lin_F(i + 1) = lin_F(i) + F);
+      (n) the number of masked entries in the sequences before n is the same for source and destination;
+    hence rank_source(n, t - shift, f) = rank_destination(n, t, f): the destination receives exactly the source's entry.
+    Postcondition at a skolem (n0, t0, f0): out[n0, t0, f0] = x[n0, t0 - left, f0] inside the sequence; in the padding the constant,
+    the reflected entry x[n0, left - t0] resp. x[n0, len - 2 - (t0 - left - len)], or the replicated end x[n0, 0] resp. x[n0, len - 1];
+    `value` beyond the padded sequence; the output extent is max_n (len + left + right)."""
     import pydrobert.torch._pad as P
     from vf.pyvc import symtensor as stn
 
@@ -72,11 +136,17 @@ def pad_p_vc(mode="constant"):
     X, LENS, PADF = z3.Function("x", Iz, Iz, Iz, Rz), z3.Function("lens", Iz, Iz), z3.Function("pad", Iz, Iz, Iz)
     LIN = z3.Function("lin_F", Iz, Iz)
     L, PL, PR = (lambda n: LENS(n)), (lambda n: PADF(0, n)), (lambda n: PADF(1, n))
-    mn = lambda a, b: z3.If(a <= b, a, b)
     clamp = lambda v, lo, hi: z3.If(v < lo, lo, z3.If(v > hi, hi, v))
-    lens_ok = lambda n: z3.Implies(z3.And(0 <= n, n < N), z3.And(0 <= L(n), L(n) <= T, PL(n) >= 0, PR(n) >= 0))
+    extra = {"constant": lambda n: z3.BoolVal(True), "reflect": lambda n: z3.And(PL(n) < L(n), PR(n) < L(n)), "replicate": lambda n: L(n) >= 1}[mode]
+    lens_ok = lambda n: z3.Implies(z3.And(0 <= n, n < N), z3.And(0 <= L(n), L(n) <= T, PL(n) >= 0, PR(n) >= 0, extra(n)))
     lin_step = lambda i: LIN(i + 1) == LIN(i) + F
     n_, i_ = z3.Ints("n_q i_q")
+    a_, b_, c_ = z3.Ints("a_q b_q c_q")
+    zero = lambda n: z3.IntVal(0)
+    # (source window, destination window, shift destination -> source frame) of the scatters, in the order the function performs them
+    pairs = [("sequence", (zero, L), (PL, lambda n: PL(n) + L(n)), PL)]
+    if mode != "constant":
+        pairs += [("left_padding", (zero, PL), (zero, PL), zero), ("right_padding", (zero, PR), (lambda n: PL(n) + L(n), lambda n: PL(n) + L(n) + PR(n)), lambda n: PL(n) + L(n))]
     name = "pad_variable[%s; symbolic N, T, F, lengths, pads]" % mode
 
     def thunk(I):
@@ -87,93 +157,63 @@ def pad_p_vc(mode="constant"):
         pad = stn.ST((2, N), lambda a, b: PADF(z(a), z(b)), "long")
         for y in (lens_ok(N0), lens_ok(N1)):
             I.ex.instance(y)
+        I.ex.ghost["any_points"] = {1: [(N0,), (N1,)]}
+        done = []
+
+        def skolem_hook(ii):  # in-bounds obligations of gather: the lengths at the new position
+            return [lens_ok(a) for a in ii]
+
+        prove_pair = window_pair_prover(I, N, F, LIN, lin_step, lens_ok, (N0, T0, F0), (N1, T1, F1))
 
         def hook(rec2, src):
-            """at the scatter of the selected entries: the three inductions, then rank equality for every position"""
+            """at a scatter: the inductions for its pair of windows, then the instances the postcondition needs"""
             rec1 = getattr(src, "compaction", None)
-            if rec1 is None or rec1["rank_"] != 3 or rec2["rank_"] != 3:
-                raise ip.Unsupported("a masked_scatter whose source is not a masked_select of a rank-3 tensor")
-            TP = rec2["dims"][1]
-            I.ex.ghost["Tp"] = TP
-            for mx in I.ex.ghost.get("maxes", []):
-                for y in (mx["ub"](N1), mx["ub"](N0)):
-                    I.ex.instance(y)
-            c1, c2 = rec1["CNT"], rec2["CNT"]
-            row1 = lambda n, t: t < L(n)
-            row2 = lambda n, t: z3.And(t >= PL(n), t < PL(n) + L(n))
-            I.ex.oblige("compaction.extents", z3.And(rec1["dims"][0] == N, rec1["dims"][1] == T, rec1["dims"][2] == F, rec2["dims"][0] == N, rec2["dims"][2] == F))
-            I.ex.oblige("compaction.masks_are_the_length_windows", z3.Implies(z3.And(0 <= N1, N1 < N, 0 <= F1, F1 < F),
-                                                                           z3.And(z3.Implies(z3.And(0 <= T1, T1 < T), rec1["mask"]([N1, T1, F1]) == row1(N1, T1)),
-                                                                                  z3.Implies(z3.And(0 <= T1, T1 < TP), rec2["mask"]([N1, T1, F1]) == row2(N1, T1)))))
-            m1 = lambda n, t, f: z3.Implies(z3.And(0 <= n, n < N, 0 <= t, t < T, 0 <= f, f < F), rec1["mask"]([n, t, f]) == row1(n, t))
-            m2 = lambda n, t, f: z3.Implies(z3.And(0 <= n, n < N, 0 <= t, t < TP, 0 <= f, f < F), rec2["mask"]([n, t, f]) == row2(n, t))
-            a_, b_, c_ = z3.Ints("a_q b_q c_q")
-            I.ex.assume(z3.ForAll([a_, b_, c_], m1(a_, b_, c_)))
-            I.ex.assume(z3.ForAll([a_, b_, c_], m2(a_, b_, c_)))
-            # (f) coefficients
-            for tag, rec, row, ext, mm in (("source", rec1, row1, T, m1), ("destination", rec2, row2, TP, m2)):
-                cf = rec["CNT"][2]
-                lem = lambda n, t, f, cf=cf, row=row, ext=ext: z3.Implies(z3.And(0 <= n, n < N, 0 <= t, t < ext, 0 <= f, f <= F), cf(n, t, f) == z3.If(row(n, t), f, 0))
-                for y in (rec["base"](2, [N1, T1]), rec["step"](2, [N1, T1], F1), mm(N1, T1, F1)):
-                    I.ex.instance(y)
-                I.ex.oblige("compaction.%s.coefficients.base" % tag, lem(N1, T1, z3.IntVal(0)))
-                I.ex.oblige("compaction.%s.coefficients.step" % tag, z3.Implies(z3.And(0 <= F1, F1 < F, lem(N1, T1, F1)), lem(N1, T1, F1 + 1)))
-                I.ex.assume(z3.ForAll([a_, b_, c_], lem(a_, b_, c_)))
-                rec["lem_f"] = lem
-            # (t) frames
-            cl1 = lambda n, t: z3.Implies(z3.And(0 <= n, n < N, 0 <= t, t <= T), c1[1](n, t) == LIN(mn(t, L(n))))
-            cl2 = lambda n, t: z3.Implies(z3.And(0 <= n, n < N, 0 <= t, t <= TP), c2[1](n, t) == LIN(clamp(t - PL(n), 0, L(n))))
-            for tag, rec, cl, ext in (("source", rec1, cl1, T), ("destination", rec2, cl2, TP)):
-                for y in (rec["base"](1, [N1]), rec["step"](1, [N1], T1), rec["lem_f"](N1, T1, F), lin_step(mn(T1, L(N1))), lin_step(clamp(T1 - PL(N1), 0, L(N1))), lens_ok(N1)):
-                    I.ex.instance(y)
-                I.ex.oblige("compaction.%s.frames.base" % tag, cl(N1, z3.IntVal(0)))
-                I.ex.oblige("compaction.%s.frames.step" % tag, z3.Implies(z3.And(0 <= T1, T1 < ext, cl(N1, T1)), cl(N1, T1 + 1)))
-                I.ex.assume(z3.ForAll([a_, b_], cl(a_, b_)))
-                rec["lem_t"] = cl
-            # (n) sequences
-            same = lambda n: z3.Implies(z3.And(0 <= n, n <= N), c1[0](n) == c2[0](n))
-            for y in (rec1["base"](0, []), rec2["base"](0, []), rec1["step"](0, [], N1), rec2["step"](0, [], N1), cl1(N1, T), cl2(N1, TP), lens_ok(N1)):
-                I.ex.instance(y)
-            I.ex.oblige("compaction.output_extent_covers_every_padded_sequence", z3.Implies(z3.And(0 <= N1, N1 < N), PL(N1) + L(N1) + PR(N1) <= TP))
-            I.ex.oblige("compaction.sequences.base", same(z3.IntVal(0)))
-            I.ex.oblige("compaction.sequences.step", z3.Implies(z3.And(0 <= N1, N1 < N, same(N1)), same(N1 + 1)))
-            I.ex.assume(z3.ForAll([a_], same(a_)))
-            I.ex.instance(same(N))
-            # use at the skolem position of the postcondition
-            src_pos = [N0, T0 - PL(N0), F0]
-            for y in (same(N0), cl1(N0, T0 - PL(N0)), cl2(N0, T0), rec1["lem_f"](N0, T0 - PL(N0), F0), rec2["lem_f"](N0, T0, F0), rec1["inj"](src_pos), m1(*src_pos), m2(N0, T0, F0), lens_ok(N0)):
-                I.ex.instance(y)
-            I.ex.ghost["recs"] = (rec1, rec2)
+            if rec1 is None or rec1["rank_"] != 3 or rec2["rank_"] != 3 or len(done) >= len(pairs):
+                raise ip.Unsupported("a masked_scatter the contract does not know (source must be a masked_select of a rank-3 tensor; %d scatters in mode %s)" % (len(pairs), mode))
+            tag, src_win, dst_win, shift = pairs[len(done)]
+            if not done:
+                I.ex.ghost["Tp"] = rec2["dims"][1]
+            prove_pair(tag, rec1, rec2, src_win, dst_win, shift)
+            done.append(tag)
+            I.ex.ghost["scatters_done"] = len(done)
 
         I.ex.ghost["scatter_hooks"] = [hook]
+        I.ex.ghost["skolem_hooks"] = [skolem_hook]
         return I.call(P.pad_variable, [x, lens, pad, mode, VAL], {})
 
     def post(p):
         if not api.returns(p) or not hasattr(p.value, "elem") or "Tp" not in p.ghost:
             return False
         out, TP = p.value, p.ghost["Tp"]
-        mx = p.ghost.get("maxes", [])
+        if p.ghost.get("scatters_done") != len(pairs):
+            return [("every_scatter_of_the_mode_was_performed", z3.BoolVal(False))]
+        mx = [m for m in p.ghost.get("maxes", []) if z3.eq(z3.simplify(m["max"] - TP), z3.IntVal(0))]
         if len(mx) != 1:
             return [("one_maximum_for_the_output_extent", z3.BoolVal(False))]
-        mx = mx[0]
-        w = mx["argmax"]
-        inside = z3.And(T0 >= PL(N0), T0 < PL(N0) + L(N0))
+        w = mx[0]["argmax"]
+        at = z3.And(0 <= N0, N0 < N, 0 <= T0, T0 < TP, 0 <= F0, F0 < F)
+        lo, hi = PL(N0), PL(N0) + L(N0)
+        o = z(out.elem(N0, T0, F0))
+        left = {"constant": VAL, "reflect": X(N0, PL(N0) - T0, F0), "replicate": X(N0, 0, F0)}[mode]
+        right = {"constant": VAL, "reflect": X(N0, L(N0) - 2 - (T0 - hi), F0), "replicate": X(N0, L(N0) - 1, F0)}[mode]
         return [("result_shape", z3.And(z3.BoolVal(len(out.shape) == 3), z(out.shape[0]) == N, z(out.shape[1]) == TP, z(out.shape[2]) == F)),
                 ("output_extent_is_the_longest_padded_sequence", z3.And(z3.Implies(z3.And(0 <= N0, N0 < N), TP >= L(N0) + PL(N0) + PR(N0)), 0 <= w, w < N, TP == L(w) + PL(w) + PR(w))),
-                ("sequence_copied_behind_its_left_padding", z3.Implies(z3.And(0 <= N0, N0 < N, 0 <= T0, T0 < TP, 0 <= F0, F0 < F, inside), z(out.elem(N0, T0, F0)) == X(N0, T0 - PL(N0), F0))),
-                ("everything_else_is_the_padding_value", z3.Implies(z3.And(0 <= N0, N0 < N, 0 <= T0, T0 < TP, 0 <= F0, F0 < F, z3.Not(inside)), z(out.elem(N0, T0, F0)) == VAL))]
+                ("sequence_copied_behind_its_left_padding", z3.Implies(z3.And(at, T0 >= lo, T0 < hi), o == X(N0, T0 - lo, F0))),
+                ("left_padding", z3.Implies(z3.And(at, T0 < lo), o == left)),
+                ("right_padding", z3.Implies(z3.And(at, T0 >= hi, T0 < hi + PR(N0)), o == right)),
+                ("beyond_the_padded_sequence_is_the_padding_value", z3.Implies(z3.And(at, T0 >= hi + PR(N0)), o == VAL))]
 
     pre = [N >= 1, T >= 0, F >= 1, z3.ForAll([n_], lens_ok(n_)), LIN(0) == 0, z3.ForAll([i_], lin_step(i_))]
     return VC("C09.P.pad_variable", name, M, "pad_variable", thunk, pre=pre, posts=[("per_sequence_pad", post)], inputs={"N": N, "T": T, "F": F}, timeout_ms=40000, max_paths=64,
               witness_hints=[N == 1, T == 2, F == 1],
-              assumptions=["masked_select / masked_scatter = stable row-major compaction, stated through per-dimension counters (assumed contract of vf/pyvc/symtensor.py, differentially tested against torch); max over a vector = an attained upper bound (assumed contract)",
-                           "lengths within [0, T], pad amounts non-negative: preconditions; lin_F(i) = i * F by its recurrence (definition)",
-                           "the three inductions (coefficients, frames, sequences) are applied outside the solver: base and step are obligations",
-                           "mode 'constant' (reflect / replicate: bounded driver); float arithmetic is not involved (values are moved, not computed)"])
+              assumptions=["masked_select / masked_scatter = stable row-major compaction, stated through per-dimension counters (assumed contract of vf/pyvc/symtensor.py, differentially tested against torch); max over a vector = an attained upper bound, any = exists (assumed contracts)",
+                           "lengths within [0, T], pad amounts non-negative (reflect: both pads below the length; replicate: length at least 1 - the function raises otherwise): preconditions; lin_F(i) = i * F by its recurrence (definition)",
+                           "the inductions (coefficients, frames, sequences - per pair of windows) are applied outside the solver: base and step are obligations",
+                           "values are moved, not computed: no float arithmetic involved"])
 
 
 def pad_p_vcs(ctx):
-    return [pad_p_vc("constant")]
+    return [pad_p_vc("constant"), pad_p_vc("reflect"), pad_p_vc("replicate")]
 
 
 def shift_vc(training):
